@@ -9,6 +9,7 @@ import re
 from os.path import splitext
 
 from ural.ensure_protocol import ensure_protocol
+from ural.canonicalize_url import canonicalize_url
 from ural.infer_redirection import infer_redirection as resolve
 from ural.utils import (
     safe_qsl_iter,
@@ -262,15 +263,19 @@ def normalize_url(
     # NOTE: an invalid port is only reported when accessed
     try:
         # Platform-specific magic
+        # NOTE: platform parsers must be given the canonical url, lest two
+        # spellings of the same url (e.g. "/x/../a" & "/a") are told apart
         if platform_aware:
-            if is_facebook_url(url):
-                p = parse_facebook_url(url)
+            canonical_url = canonicalize_url(url)
+
+            if is_facebook_url(canonical_url):
+                p = parse_facebook_url(canonical_url)
 
                 if p is not None:
                     url = p.url
 
-            elif is_youtube_url(url):
-                url = normalize_youtube_url(url)
+            elif is_youtube_url(canonical_url):
+                url = normalize_youtube_url(canonical_url)
 
         # Parsing
         splitted = urlsplit(url)
